@@ -207,7 +207,7 @@ Proof.
   - cbn [enc_col]. rewrite (collect_map _ VBrickColor (fun z => z)) by reflexivity. cbn [rbind]. rewrite map_id. reflexivity.
   - cbn [dec_col]. rewrite N.eqb_refl. unfold pbind. rewrite u32_array_roundtrip.
     + assert (E : find (fun v => negb (N.ltb v 65536 && brick_valid v)) ns = None).
-      { induction H as [|v l [Hv Hb] _ IH]; cbn; auto. apply N.ltb_lt in Hv. rewrite Hv, Hb. cbn. exact IH. }
+      { induction H as [|v l [Hv Hb] _ IH]; cbn [find]; auto. apply N.ltb_lt in Hv. rewrite Hv, Hb. cbn [andb negb]. exact IH. }
       rewrite E. reflexivity.
     + eapply Forall_impl; [|exact H]. intros a [Ha _]. rewrite pow32. lia.
 Qed.
@@ -341,7 +341,7 @@ Proof.
     assert (E : flat_map (fun p : vec3 * vec3 => ray_bytes (fst p) (snd p)) rs
                 = flat_map (fun v => match v with VRay o d => ray_bytes o d | _ => [] end)
                            (List.map (fun p : vec3 * vec3 => VRay (fst p) (snd p)) rs)).
-    { clear H. induction rs as [|[o d] l IH]; cbn; [reflexivity|]. now rewrite IH. }
+    { clear H. induction rs as [|[o d] l IH]; cbn [flat_map List.map fst snd]; [reflexivity|]. now rewrite IH. }
     rewrite E.
     apply (prepeat_roundtrip (fun v => exists o d, v = VRay o d /\ vec3_ok o = true /\ vec3_ok d = true)).
     + intros a r (o & d & -> & Ho & Hd). unfold ray_bytes.
